@@ -27,6 +27,16 @@ theorem count_star_is_length (vs : List Value) : countStar vs = .int vs.length :
 theorem count_is_non_null (vs : List Value) : count vs = .int (Spec.nonNull vs).length := rfl
 theorem collect_is_filter (vs : List Value) : collect vs = .list (Spec.nonNull vs) := rfl
 
+/-- the counts do not depend on the order in which the rows of a group arrive (hash-map iteration order,
+    scan order): any permutation of the group's values gives the same `count(*)`, `count(x)`, and the same
+    MULTISET of collected values -/
+theorem counts_order_independent (vs ws : List Value) (h : vs.Perm ws) :
+    countStar vs = countStar ws ∧ count vs = count ws ∧ (Spec.nonNull vs).Perm (Spec.nonNull ws) := by
+  refine ⟨?_, ?_, h.filter _⟩
+  · simp only [countStar, h.length_eq]
+  · have := (h.filter (fun v => !v.isNull)).length_eq
+    simp only [count, Agg.nonNull, this]
+
 /-! ### sum: ONE overflow rule, the same as `+` -/
 
 /-- a Float among the values ⇒ the Float fold; otherwise the exact integer total when it fits an i64, else
